@@ -1327,6 +1327,15 @@ impl Server {
     /// Perform any necessary cleanup before putting the server
     /// connection back in the pool
     pub async fn checkin_cleanup(&mut self) -> Result<(), Error> {
+        // A server still in COPY mode treats whatever we send next as a protocol
+        // violation that aborts the COPY: the cleanup query itself is swallowed and
+        // the session state survives. Such a connection cannot be cleaned, drop it.
+        if self.in_copy_mode() {
+            warn!(target: "pgcat::server::cleanup", "Server returned while still in copy-mode");
+            self.mark_bad("returned to the pool while in copy mode");
+            return Ok(());
+        }
+
         // Client disconnected with an open transaction on the server connection.
         // Pgbouncer behavior is to close the server connection but that can cause
         // server connection thrashing if clients repeatedly do this.
@@ -1359,10 +1368,6 @@ impl Server {
 
             self.query(&reset_string).await?;
             self.cleanup_state.reset();
-        }
-
-        if self.in_copy_mode() {
-            warn!(target: "pgcat::server::cleanup", "Server returned while still in copy-mode");
         }
 
         Ok(())
